@@ -920,9 +920,14 @@ def prove_eq(a, b, extra=(), approx=False):
     if a.tag or b.tag:
         return ('unsat' if a.tag == b.tag else 'sat'), None
     if a.c is not None and b.c is not None:
-        if approx:
+        if a.c == b.c:
+            return 'unsat', None
+        # constants that came out of float arithmetic on a concrete path (binary fractions with huge denominators)
+        # are compared up to 1e-9: floats are not reals
+        floaty = a.c.denominator > 10**6 or b.c.denominator > 10**6
+        if approx or floaty:
             return ('unsat' if abs(a.c - b.c) <= APPROX_TOL * max(1, abs(b.c)) else 'sat'), None
-        return ('unsat' if a.c == b.c else 'sat'), None
+        return 'sat', None
     if (a.c is not None and is_closed(b)) or (approx and a.c is not None):
         # float result of a concrete path vs. exact closed-form value: compare up to tolerance
         tol = _rv(APPROX_TOL * max(1, abs(a.c)))
